@@ -1284,7 +1284,11 @@ impl Analyzable for TxDef {
         for (i, input) in self.inputs.iter().enumerate() {
             let name = input.name.to_lowercase();
 
-            if self.inputs[..i].iter().any(|x| x.name.to_lowercase() == name) {
+            // the collateral block's query goes by the fixed name `collateral`
+            let taken_by_collateral = name == "collateral" && !self.collateral.is_empty();
+
+            if taken_by_collateral || self.inputs[..i].iter().any(|x| x.name.to_lowercase() == name)
+            {
                 duplicates =
                     duplicates + AnalyzeReport::from(Error::DuplicateDefinition(input.name.clone()));
             }
